@@ -37,7 +37,7 @@ ASSUMPTIONS = [
 ]
 
 SRC_FL = ["list", "seq", "iter", "agen", "aclass", "aplain", "tuple", "tuplesub", "aeager", "reiter", "areiter", "aproxy"]
-FN_FL = ["def", "async", "partial", "obj", "objaw", "falsyobj", "eqobj", "unhashobj", "aeqobj", "gencoro"]
+FN_FL = ["def", "async", "partial", "obj", "objaw", "falsyobj", "eqobj", "unhashobj", "aeqobj", "gencoro", "classaw"]
 ASYNC_SRC = {"agen", "aclass", "aplain", "aeager", "areiter", "aproxy"}
 ALL = ITER_TOOLS + AGG_TOOLS
 
